@@ -52,7 +52,8 @@ def child_main(argv):
                     break
             ans[name] = "EXC:" + type(ex).__name__
             if first is None:
-                first = {"crash": type(ex).__name__, "where": where, "msg": str(ex)[:200], "query": name}
+                stack = [fr.name for fr in traceback.extract_tb(ex.__traceback__) if os.sep + "spsdk" + os.sep in fr.filename]
+                first = {"crash": type(ex).__name__, "where": where, "msg": str(ex)[:200], "query": name, "stack": stack}
 
     from spsdk.utils.database import DatabaseManager, get_db, get_device, get_families, get_schema_file
     import spsdk
